@@ -23,7 +23,7 @@ RULE = ("each case compiles one generated model for one configuration (backend i
         "distinct = distinct (spec, configuration) hash")
 DECIDING = ['derivatives_compared', 'torch_cases', 'jax_cases', 'fortran_cases', 'default_cases', 'float32_cases', 'rows_compared',
             'adaptive_rows_compared', 'interp_probe_points', 'readonly_param_probes', 'jax_checkify_probes', 'fortran_builds_checked',
-            'runs_with_coarser_sampling', 'literal_magnitude_models', 'oscillator_runs']
+            'runs_with_coarser_sampling', 'literal_magnitude_models', 'oscillator_runs', 'rational_number_values']
 ASSUMPTIONS = ['float32 builds are compared at rtol 5e-4 on well-conditioned probe points only',
                'feature set per backend is what the backend accepts (Fortran: scalar models; JAX: no ring buffers); refusals are C20\'s business']
 CASE_TIMEOUT = 420
@@ -55,6 +55,10 @@ def plan(tier, seed):
     for b in n:
         cases += [{'family': 'oscillator', 'cseed': rnd.randrange(1 << 30), 'backend': b, 'mode': 'run_adaptive', 'prec': 'float64',
                    'oscillator': True} for _ in range(5 if tier == 'quick' else 60)]
+    # rational numbers in equations (x**(1/3), 2/3): integer division on a backend with typed literals
+    for b, kk in (('fortran', 8), ('default', 2), ('torch', 2), ('jax', 2)):
+        cases += [{'family': 'rational_numbers', 'cseed': rnd.randrange(1 << 30), 'backend': b, 'mode': 'vf', 'prec': 'float64'}
+                  for _ in range(kk if tier == 'quick' else kk * 10)]
     opened = open_risks(PID)
     k = 6 if tier == 'quick' else 40
     for feat in FOCUS:
@@ -131,7 +135,52 @@ def scale_literals(spec, rnd, max_hits=3):
     return bool(hits)
 
 
+def run_rational_case(case, ctx):
+    """Hand-written equations with rational numbers (x**(1/3), a bare 2/3, ^ with a rational exponent): the compiled vector
+    field on the requested backend against direct numpy arithmetic."""
+    from pyrates import OperatorTemplate, NodeTemplate, CircuitTemplate
+    rnd = random.Random(case['cseed'])
+    b = case['backend']
+    mech = {b + '_cases': 1}
+    p, q = rnd.choice([(1, 3), (2, 3), (1, 2), (3, 2), (1, 4), (5, 3)])
+    p2, q2 = rnd.choice([(1, 3), (2, 7), (3, 4)])
+    k, c0 = round(rnd.uniform(0.5, 2.0), 3), round(rnd.uniform(1.1, 2.5), 3)
+    x0, z0 = round(rnd.uniform(-1, 1), 3), round(rnd.uniform(-1, 1), 3)
+    pw = rnd.choice(['**', '^'])
+    eqs = [f"x' = -x + k*({c0} + x*x){pw}({p}/{q}) + z*{p2}/{q2}", f"z' = -z*({c0} + z*z){pw}(-{p}/{q}) + {p2}/{q2} + k*x"]
+    res = {'features': [b, 'rational_numbers', pw], 'risk': [], 'sig': stable_hash([eqs, b, x0, z0, k]), 'nontrivial': True}
+    try:
+        op = OperatorTemplate(name='rat_op', equations=eqs, variables={'x': f'output({x0})', 'z': f'variable({z0})', 'k': k})
+        c = CircuitTemplate(name='rat', nodes={'n': NodeTemplate(name='rat_node', operators=[op])})
+        try:
+            f, args, names, smap = c.get_run_func('vf', step_size=1e-3, backend=b, vectorize=False, verbose=False, clear=True,
+                                                  float_precision='float64')
+        except Exception as e:
+            import traceback
+            raise observe.Mismatch(f"loud: get_run_func(backend={b}) raised {type(e).__name__}: {e} :: {traceback.format_exc()[-300:]}")
+        obs = {'func': f, 'args': list(args), 'names': list(names), 'smap': dict(smap), 'backend': b}
+        for _ in range(4):
+            x, z = rnd.uniform(-1.5, 1.5), rnd.uniform(-1.5, 1.5)
+            y = np.zeros(2)
+            y[int(smap['n/rat_op/x'])], y[int(smap['n/rat_op/z'])] = x, z
+            got = observe.call_vf(obs, obs['args'], y.copy())
+            exp = {'x': -x + k * (c0 + x * x) ** (p / q) + z * p2 / q2, 'z': -z * (c0 + z * z) ** (-p / q) + p2 / q2 + k * x}
+            for v in ('x', 'z'):
+                g = float(got[int(smap[f'n/rat_op/{v}'])])
+                if not abs(g - exp[v]) <= 1e-9 * max(1.0, abs(exp[v])):
+                    raise observe.Mismatch(f"backend {b}: derivative of {v} for equations {eqs} at x={x!r}, z={z!r} is {g!r}, arithmetic value "
+                                           f"{exp[v]!r}")
+                mech['rational_number_values'] = mech.get('rational_number_values', 0) + 1
+        res.update(status='ok', symptom='', mech=mech, sample={'equations': eqs})
+    except observe.Mismatch as e:
+        s2 = str(e)
+        res.update(status='violation', symptom=('silent: ' if 'loud' not in s2 else '') + s2, mech=mech, spec={'eqs': eqs})
+    return res
+
+
 def run_case(case, ctx):
+    if case.get('family') == 'rational_numbers':
+        return run_rational_case(case, ctx)
     rnd = random.Random(case['cseed'])
     b, mode, prec = case['backend'], case['mode'], case['prec']
     want = case.get('want')
